@@ -739,8 +739,10 @@ harness(void) {
   if (dir_n == VP_N && nm + nl + nt == 0)
     VP_WITNESS("nothing-to-repair-from");
 #endif
+#if VP_N >= 1
   if (ref_next > 1)
     VP_WITNESS("counter-raised");
+#endif
 }
 
 #else
